@@ -171,7 +171,8 @@ class TerminalModel:
 
     # ------------------------------------------------------------- EEPROM
     def _ee_status(self, busy):
-        v = (0x40 if self.ee_eight else 0) | (0x8000 if busy else 0)
+        v = (0x40 if self.ee_eight else 0) | (0x8000 if busy else 0) \
+            | getattr(self, "ee_status_extra", 0)
         self.mem[0x502:0x504] = v.to_bytes(2, "little")
 
     def _ee_poll(self):
